@@ -90,7 +90,7 @@ let judge_int signed args got =
   | _ -> fail "ok-with-all-fields"
 
 (* ---------------------------------------------------------------- floats *)
-type fval = { f : frepr; prec : Zar.t }
+type fval = { f : frepr; prec : Zar.t; dub : Zar.t }
 
 let base_of = function "2" -> 2 | "3" -> 3 | "a" -> 10 | "10" -> 16 | s -> raise (Bad ("base-" ^ s))
 
@@ -101,33 +101,37 @@ let parse_frepr ssig sexp =
   | _ -> { fsig = z ssig; fexp = z sexp }
 
 (* value expected from a route, as (source base, sig, exp), when the route is exact *)
-let small_exp = 38 (* THRESHOLD_SMALL_EXP on 64-bit words *)
+(* A route either keeps the source value exactly, or (base conversions, with_base_and_precision; since
+   the repairs 84cc580 / c323a19 / 034e0cf of Context::convert_base they round to the precision of the
+   result) may round it.  For the latter the result must still be the source value whenever that value
+   fits into the reported precision of the result (judged for the same-base routes only). *)
+type exactness = Exact | MayRound
+
+let rec strip b m = if Zar.sign m <> 0 && Zar.sign (Zar.rem m b) = 0 then strip b (Zar.div m b) else m
+
+(* can sig * sb^exp be written with at most [precd] digits in base bb?  None: not decided here *)
+let representable sb (e : frepr) bb precd =
+  let bz = Zar.of_int bb in
+  if sb = bb then Some (Zar.sign precd = 0 || Zar.leq (ndigits bz (strip bz e.fsig)) precd)
+  else None (* whether a conversion between two bases is correctly rounded is C06's property, not judged here *)
 
 let expected_value bb ssig sexp prec route p =
   let fits b = (* the source has at most prec digits, so no rounding on the way *)
     Zar.sign prec = 0 || Zar.leq (ndigits (Zar.of_int b) (z ssig)) prec in
-  let pw x y = Zar.equal (Zar.pow (Zar.of_int x) (Zar.to_int (ndigits (Zar.of_int x) (Zar.of_int y)) - 1)) (Zar.of_int y) in
-  if ssig = "inf" || ssig = "-inf" then Some (bb, parse_frepr ssig sexp)
+  if ssig = "inf" || ssig = "-inf" then Some (bb, parse_frepr ssig sexp, Exact)
   else
-    let src b = Some (b, { fsig = z ssig; fexp = z sexp }) in
+    let src ?(ex = Exact) b = Some (b, { fsig = z ssig; fexp = z sexp }, ex) in
     match route with
     | "repr" | "parts" | "parts_scaled" | "repr_scaled" | "clone" | "negneg" | "shlr" | "rounding"
-    | "fromint" | "same_p" -> src bb
+    | "fromint" -> src bb
     | "withprec_up" ->
         (* with_precision(prec + p): from unlimited precision (prec = 0) this is a rounding to p digits *)
         if Zar.sign prec <> 0 || Zar.leq (ndigits (Zar.of_int bb) (z ssig)) (usz p) then src bb else None
     | "withprec" | "addsub0" | "mul1" | "muldiv0" | "convint" -> if fits bb then src bb else None
-    | "from10" | "from2" ->
-        let sb = if route = "from10" then 10 else 2 in
-        let e = Zar.to_int (z sexp) in
-        if sb = bb then src sb
-        else if bb < sb && pw bb sb then src sb                      (* B is a power of NewB: exact, unrounded *)
-        else if bb > sb && pw sb bb then None                        (* NewB is a power of B: rounded *)
-        else if e >= 0 && e <= small_exp then src sb                 (* exact power route *)
-        else None
-    | "from16_p" -> if bb = 2 || bb = 16 then src 16 else None
-    | "from10_p" -> if bb = 10 then src 10 else None
-    | "from2_p" -> if bb = 2 then src 2 else None
+    | "same_p" -> src ~ex:MayRound bb
+    | "from10" | "from10_p" -> src ~ex:MayRound 10
+    | "from2" | "from2_p" -> src ~ex:MayRound 2
+    | "from16_p" -> src ~ex:MayRound 16
     | _ -> raise (Bad ("route-" ^ route))
 
 let judge_flt args got =
@@ -136,27 +140,36 @@ let judge_flt args got =
   let k = Zar.to_int (usz (List.nth args 1)) in
   let a6 = drop 2 args in
   match got with
-  | "ok" :: toks when List.length toks = 6 * k + k * (k - 1) ->
+  | "ok" :: toks when List.length toks = 7 * k + k * (k - 1) ->
       let vals = List.init k (fun i ->
-        let t = take 6 (drop (6 * i) toks) in
+        let t = take 7 (drop (7 * i) toks) in
         let q = take 6 (drop (6 * i) a6) in
         match t, q with
-        | [ ssig; sexp; sprec; scap; sn; sinl ], [ _mode; asig; aexp; aprec; route; p ] ->
+        | [ ssig; sexp; sprec; sdub; scap; sn; sinl ], [ _mode; asig; aexp; aprec; route; p ] ->
             let f = parse_frepr ssig sexp in
             let what = "v" ^ string_of_int i in
             (* invariants of the representation: normalised, canonical significand *)
             if not (normalizedb bz f) then raise (Bad (what ^ "-not-normalised"));
             if not (layout_ok w f.fsig (z scap) (usz sn) (sinl = "1")) then raise (Bad (what ^ "-significand-layout"));
             (match expected_value bb asig aexp (usz aprec) route p with
-             | Some (sb, e) ->
+             | Some (sb, e, ex) ->
                  let inf_e = f_is_inf e and inf_f = f_is_inf f in
                  if inf_e || inf_f then begin
                    if not (inf_e && inf_f && Zar.sign e.fexp = Zar.sign f.fexp) then raise (Bad (what ^ "-value"))
-                 end else if not (xval_eq (Zar.of_int sb) e.fsig e.fexp bz f.fsig f.fexp) then raise (Bad (what ^ "-value"))
+                 end else if not (xval_eq (Zar.of_int sb) e.fsig e.fexp bz f.fsig f.fexp) then begin
+                   match ex with
+                   | Exact -> raise (Bad (what ^ "-value"))
+                   | MayRound ->
+                       if representable sb e bb (usz sprec) = Some true then raise (Bad (what ^ "-value-changed-though-representable"))
+                 end
              | None -> ());
-            { f; prec = usz sprec }
+            (* hypothesis of C05_float_cmp on the estimate the code really used: |sig| < B^(digits_ub + 1) *)
+            let dub = usz sdub in
+            if Zar.sign f.fsig <> 0 && not (Zar.lt (Zar.abs f.fsig) (Zar.pow bz (Zar.to_int dub + 1))) then
+              raise (Bad (what ^ "-digits_ub-not-a-bound"));
+            { f; prec = usz sprec; dub }
         | _ -> raise (Bad "shape")) in
-      let pairs = drop (6 * k) toks in
+      let pairs = drop (7 * k) toks in
       let same = ref true and bad = ref None and idx = ref 0 in
       for i = 0 to k - 1 do
         for j = 0 to k - 1 do
@@ -168,7 +181,8 @@ let judge_flt args got =
             let o8 = ord8 e c in
             (* eq ne pcmp lt le gt ge | cmp abs_cmp | repr.cmp repr== *)
             let want = str ([ List.nth o8 0; List.nth o8 1; List.nth o8 3 ] @ drop 4 o8 @ [ cc c; cc ac; cc c; bc e ]) in
-            let dub = ndigits bz in
+            (* the as-is model runs on the estimates the implementation reported *)
+            let dub s = if Zar.equal s a.f.fsig then a.dub else if Zar.equal s b.f.fsig then b.dub else ndigits bz s in
             let me = fbig_eq a.f b.f in
             let mc = repr_cmp_same_base bz dub false a.f b.f in
             let mac = repr_cmp_same_base bz dub true a.f b.f in
